@@ -33,10 +33,12 @@ def run(chk):
         dict(flavour="asan-ubsan", scen="det", runs=(900, 25000), opts={"cb": 1, "polar": 0, "maxNets": 16, "varyScale": 1}),
         dict(flavour="rel", scen="det", runs=(900, 25000), opts={"cb": 2, "polar": 1, "maxNets": 16, "maxMovable": 14}),
         dict(flavour="asan-ubsan", scen="passes", runs=(700, 25000), opts={"polar": 0, "maxNets": 16, "maxMovable": 14, "varyScale": 10}),
+        # the same circuits far from the origin (translations by 2^24 .. 2^27: beyond the integers a float represents exactly)
+        dict(flavour="rel", scen="det", runs=(900, 25000), opts={"cb": 1, "polar": 0, "maxNets": 16, "translate": 1}),
     ]
     run_plan(chk, "C05", plan, nontrivial)
     chk.cov["rule"] = ("placeDetailed executions on random circuits with nets of degree 1..many (repeated cells, fixed pins, offsets inside/outside "
-                       "the cell); TLC recomputes the HPWL of every exposed state with the orientation algebra and checks it is non-increasing "
+                       "the cell), at the origin and translated by 2^24..2^27; TLC recomputes the HPWL of every exposed state with the orientation algebra and checks it is non-increasing "
                        "over callbacks and not above the legalized placement; non-trivial = wirelength strictly decreased; distinct by seed")
     return chk.finish()
 
